@@ -22,6 +22,7 @@ import PqlModel.Props.C08ErrIRUnits
 import PqlModel.Props.C08ErrIRAlgebra
 import PqlModel.Props.C08ErrIRShape
 import PqlModel.Props.C08ErrIR
+import PqlModel.Props.IRHeadlinesD
 #print axioms Pql.C10.C10_union_lists_every_field
 #print axioms Pql.C10.C10_model_matches_span_table
 #print axioms Pql.C10.C10_unions_contains
@@ -78,3 +79,8 @@ import PqlModel.Props.C08ErrIR
 #print axioms Pql.LexIR.C10_linecol_ir
 #print axioms Pql.LexIR.C10_linecol_pql_ir
 #print axioms Pql.LexIR.C10_linecol_ir_panics
+#print axioms Pql.IRHead.C10_span_extent_ir
+#print axioms Pql.IRHead.C10_span_deep_ir
+#print axioms Pql.IRHead.C10_expr_span_is_source_text_ir
+#print axioms Pql.IRHead.C10_error_positions_ir
+#print axioms Pql.IRHead.C10_on_translated_code
